@@ -675,6 +675,9 @@ impl Expr {
             Expr::Var { name, ty: _ } => RcDoc::text(name),
             Expr::Bool { value, ty: _ } => RcDoc::text(if *value { "true" } else { "false" }),
             Expr::Int { value, ty: _ } => RcDoc::as_string(value),
+            // a finite float is written with a decimal point or an exponent: `1 / 2` would be
+            // integer constant arithmetic in Go
+            Expr::Float { value, ty: _ } if value.is_finite() => RcDoc::text(format!("{:?}", value)),
             Expr::Float { value, ty: _ } => RcDoc::as_string(value),
             Expr::String { value, ty: _ } => RcDoc::text("\"")
                 .append(RcDoc::text(escape_go_string(value)))
